@@ -89,4 +89,265 @@ theorem process_in_order {ν β γ} (f : ν → List (Arg β) → Res γ) (nl : 
   | none => rw [ho] at this; simp at this
   | some v => rw [ho] at this; simp only [Option.map_some, Option.some.injEq] at this; exact this.symm
 
+/-! ## Extensions (second pass) -/
+
+theorem mapM_some_spec {α β} (f : α → Option β) (l : List α) (ys : List β) (h : l.mapM f = some ys) :
+    ys.length = l.length ∧ ∀ i (hi : i < l.length), ys[i]? = f l[i] := by
+  induction l generalizing ys with
+  | nil => simp at h; subst h; simp
+  | cons a l ih =>
+    rw [List.mapM_cons] at h
+    cases hfa : f a with
+    | none => rw [hfa] at h; simp at h
+    | some b =>
+      rw [hfa] at h
+      cases hl : l.mapM f with
+      | none => rw [hl] at h; simp at h
+      | some bs =>
+        rw [hl] at h
+        simp at h
+        subst h
+        obtain ⟨h1, h2⟩ := ih bs hl
+        refine ⟨by simp [h1], ?_⟩
+        intro i hi
+        cases i with
+        | zero => simp [hfa]
+        | succ i => simp at hi ⊢; exact h2 i hi
+
+/-! ### the zip rule -/
+
+theorem parseVal_excluded {β} (n i : Nat) (a : Val β) : parseVal n i true a = some a := by
+  simp [parseVal]
+
+theorem parseVal_not_iterable {β} (n i : Nat) (ex : Bool) (a : Val β) (h : a.isIterable = false) :
+    parseVal n i ex a = some a := by
+  unfold parseVal; cases ex <;> simp [h]
+
+theorem parseVal_seq_match {β} (n i : Nat) (vs : List β) (hlen : vs.length = n) (hi : i < n) :
+    parseVal n i false (.seq vs) = some (.atom (vs[i]'(by omega))) := by
+  unfold parseVal
+  simp only [Bool.false_eq_true, if_false, Val.isIterable, Bool.not_true, Val.len?, hlen, ne_eq,
+    not_true_eq_false, Val.index?]
+  rw [List.getElem?_eq_getElem (by omega)]; rfl
+
+theorem parseVal_seq_other {β} (n i : Nat) (vs : List β) (hlen : vs.length ≠ n) :
+    parseVal n i false (.seq vs) = some (.seq vs) := by
+  unfold parseVal
+  simp [Val.isIterable, Val.len?, hlen]
+
+theorem parseVal_dict_match {β} (n i : Nat) (kvs : List (Nat × β)) (o : Nat) (hlen : kvs.length + o = n) :
+    parseVal n i false (.dict kvs o) = (kvs.lookup i).map .atom := by
+  unfold parseVal
+  simp [Val.isIterable, Val.len?, hlen, Val.index?]
+
+/-! ### per-neuron calls -/
+
+theorem parseCall_aux {ν β} (nl : List ν) (exclPos : List Nat) (exclKw : List String)
+    (args : List (Val β)) (kwargs : List (String × Val β)) (i : Nat) (first : ν ⊕ List ν) (as : List (Val β))
+    (kws : List (String × Val β)) (hfirst : parseFirst nl exclPos i = some first)
+    (has : (args.zipIdx 1).mapM (fun ak => parseVal nl.length i (decide (ak.2 ∈ exclPos)) ak.1) = some as)
+    (hkws : kwargs.mapM (fun kv => (parseVal nl.length i (decide (kv.1 ∈ exclKw)) kv.2).map fun v' => (kv.1, v')) = some kws) :
+    (0 ∉ exclPos → first = (nl[i]?).elim (.inr []) .inl ∧ (nl[i]?).isSome) ∧
+    as.length = args.length ∧
+    (∀ k (hk : k < args.length), as[k]? = parseVal nl.length i (decide (k + 1 ∈ exclPos)) args[k]) ∧
+    kws.length = kwargs.length ∧
+    (∀ k (hk : k < kwargs.length), kws[k]? =
+        (parseVal nl.length i (decide (kwargs[k].1 ∈ exclKw)) kwargs[k].2).map fun v => (kwargs[k].1, v)) := by
+  obtain ⟨hl1, hg1⟩ := mapM_some_spec _ _ _ has
+  obtain ⟨hl2, hg2⟩ := mapM_some_spec _ _ _ hkws
+  refine ⟨?_, ?_, ?_, hl2, ?_⟩
+  · intro h0
+    unfold parseFirst at hfirst
+    rw [if_neg h0] at hfirst
+    cases hn : nl[i]? with
+    | none => rw [hn] at hfirst; simp at hfirst
+    | some x => rw [hn] at hfirst; simp at hfirst; simp [← hfirst]
+  · simpa using hl1
+  · intro k hk
+    have hk' : k < (args.zipIdx 1).length := by simpa using hk
+    have := hg1 k hk'
+    rw [this]
+    simp only [List.getElem_zipIdx]
+    have : 1 + k = k + 1 := by omega
+    rw [this]
+  · intro k hk
+    exact hg2 k hk
+
+
+theorem parseCall_spec {ν β} (nl : List ν) (exclPos : List Nat) (exclKw : List String)
+    (args : List (Val β)) (kwargs : List (String × Val β)) (i : Nat) (c : Call ν β)
+    (h : parseCall nl exclPos exclKw args kwargs i = some c) :
+    (0 ∉ exclPos → c.first = (nl[i]?).elim (.inr []) .inl ∧ (nl[i]?).isSome) ∧
+    c.args.length = args.length ∧
+    (∀ k (hk : k < args.length), c.args[k]? = parseVal nl.length i (decide (k + 1 ∈ exclPos)) args[k]) ∧
+    c.kwargs.length = kwargs.length ∧
+    (∀ k (hk : k < kwargs.length), c.kwargs[k]? =
+        (parseVal nl.length i (decide (kwargs[k].1 ∈ exclKw)) kwargs[k].2).map fun v => (kwargs[k].1, v)) := by
+  unfold parseCall at h
+  split at h
+  · rename_i first as kws hfirst has hkws
+    simp only [Option.some.injEq] at h
+    subst h
+    exact parseCall_aux nl exclPos exclKw args kwargs i first as kws hfirst has hkws
+  · simp at h
+
+
+/-- ordered `imap` with any chunk size = the serial loop. -/
+theorem processWParallel_eq {ν β γ} (f : Nat → Call ν β → Res γ) (nl : List ν) (exclPos : List Nat)
+    (exclKw : List String) (args : List (Val β)) (kwargs : List (String × Val β)) (omitF : Bool) (cs : Nat) :
+    processWParallel f nl exclPos exclKw args kwargs omitF cs = processW f nl exclPos exclKw args kwargs omitF := by
+  unfold processWParallel processW
+  cases (List.range nl.length).mapM (parseCall nl exclPos exclKw args kwargs) with
+  | none => rfl
+  | some calls =>
+    simp only
+    have : ((chunks cs calls.zipIdx).map fun ch => ch.map fun (p : Call ν β × Nat) => f p.2 p.1).flatten
+        = calls.zipIdx.map fun (p : Call ν β × Nat) => f p.2 p.1 := by
+      rw [← List.map_flatten, chunks_flatten]
+    rw [this]
+
+theorem processW_omit {ν β γ} (f : Nat → Call ν β → Res γ) (nl : List ν) (exclPos : List Nat)
+    (exclKw : List String) (args : List (Val β)) (kwargs : List (String × Val β)) :
+    processW f nl exclPos exclKw args kwargs true =
+      ((List.range nl.length).mapM (parseCall nl exclPos exclKw args kwargs)).map fun calls =>
+        calls.zipIdx.filterMap fun p => f p.2 p.1 := by
+  unfold processW
+  cases (List.range nl.length).mapM (parseCall nl exclPos exclKw args kwargs) with
+  | none => rfl
+  | some calls => simp [collect, List.filterMap_map, Function.comp_def]
+
+/-- When every neuron's call is built and none fails, the `k`-th result is `funcs[k]` applied to the
+`k`-th neuron's own call. -/
+theorem processW_in_order {ν β γ} (f : Nat → Call ν β → Res γ) (nl : List ν) (exclPos : List Nat)
+    (exclKw : List String) (args : List (Val β)) (kwargs : List (String × Val β)) (omitF : Bool)
+    (calls : List (Call ν β)) (hcalls : (List.range nl.length).mapM (parseCall nl exclPos exclKw args kwargs) = some calls)
+    (hall : ∀ k (hk : k < calls.length), (f k calls[k]).isSome) (out : List γ)
+    (h : processW f nl exclPos exclKw args kwargs omitF = some out) :
+    out.length = nl.length ∧ ∀ k (hk : k < calls.length), f k calls[k] = out[k]? := by
+  obtain ⟨hlen, _⟩ := mapM_some_spec _ _ _ hcalls
+  simp only [List.length_range] at hlen
+  let runs := calls.zipIdx.map fun (p : Call ν β × Nat) => f p.2 p.1
+  have hrl : runs.length = calls.length := by simp [runs]
+  have hget : ∀ k (hk : k < calls.length), runs[k]? = some (f k calls[k]) := by
+    intro k hk
+    simp only [runs, List.getElem?_map, List.getElem?_zipIdx, List.getElem?_eq_getElem hk, Option.map_some,
+      Nat.zero_add]
+  have hsome : ∀ x ∈ runs, x.isSome := by
+    intro x hx
+    obtain ⟨k, hk, rfl⟩ := List.getElem_of_mem hx
+    have hk' : k < calls.length := hrl ▸ hk
+    have := hget k hk'
+    rw [List.getElem?_eq_getElem hk] at this
+    rw [Option.some.inj this]; exact hall k hk'
+  have hout : out = runs.filterMap id := by
+    unfold processW at h
+    rw [hcalls] at h
+    simp only [collect] at h
+    have hall' : runs.all Option.isSome = true := by rw [List.all_eq_true]; exact hsome
+    cases omitF <;> simp only [Bool.false_eq_true, if_false, if_true] at h
+    · simp only [runs] at hall'; rw [if_pos hall'] at h; exact (Option.some.inj h).symm
+    · exact (Option.some.inj h).symm
+  have hmap := filterMap_id_of_all_some runs hsome
+  rw [← hout] at hmap
+  have hl : out.length = calls.length := by
+    have := congrArg List.length hmap; simp at this; omega
+  refine ⟨by omega, ?_⟩
+  intro k hk
+  have := hget k hk
+  rw [← hmap, List.getElem?_map] at this
+  cases ho : out[k]? with
+  | none => rw [ho] at this; simp at this
+  | some v => rw [ho] at this; simp only [Option.map_some, Option.some.injEq] at this; exact this.symm
+
+/-! ### results -/
+
+theorem finish_all_neurons {ν γ} (xs : List ν) :
+    finish (xs.map (Ret.neuron (γ := γ))) = .neuronlist xs := by
+  unfold finish
+  have h1 : (xs.map (Ret.neuron (γ := γ))).all Ret.isNeuron = true := by
+    rw [List.all_eq_true]; intro r hr
+    rw [List.mem_map] at hr; obtain ⟨x, _, rfl⟩ := hr; rfl
+  rw [if_pos h1]
+  congr 1
+  induction xs with
+  | nil => rfl
+  | cons x xs ih =>
+    have ih' := ih (by rw [List.all_eq_true]; intro r hr; rw [List.mem_map] at hr; obtain ⟨x, _, rfl⟩ := hr; rfl)
+    simp only [List.map_cons, List.flatMap_cons, Ret.unpack, List.cons_append, List.nil_append, ih']
+
+/-! ### `map_neuronlist` -/
+
+theorem mapNeuronlist_ok {β} (cfg : MapCfg) (n nargs : Nat) (kwargs : List (String × Val β)) (parallel : Bool)
+    (inplaceKw omitKw : Option Bool) (plan : MapPlan)
+    (h : mapNeuronlist cfg n nargs kwargs parallel inplaceKw omitKw = .ok plan) :
+    plan.exclPos = List.range' 1 nargs ∧
+    (∀ k ∈ plan.exclKw, ¬ k ∈ cfg.canZip ∧ ¬ k ∈ cfg.mustZip) ∧
+    (∀ p ∈ cfg.mustZip, ∀ v, kwargs.lookup p = some v → v ≠ .pyNone → v.makeIterableLen = some n) ∧
+    (∀ p ∈ cfg.canZip, ∀ v, kwargs.lookup p = some v → v.isIterable = true → v.len? = some n) := by
+  unfold mapNeuronlist at h
+  split at h
+  · simp at h
+  · simp only at h
+    split at h
+    · simp at h
+    · rename_i hcan
+      split at h
+      · simp at h
+      · rename_i hmust
+        simp only [Except.ok.injEq] at h
+        subst h
+        refine ⟨rfl, ?_, ?_, ?_⟩
+        · intro k hk
+          simp only [List.mem_filter, Bool.and_eq_true, Bool.not_eq_eq_eq_not, Bool.not_true,
+            List.contains_eq_mem, decide_eq_false_iff_not] at hk
+          exact hk.2
+        · intro p hp v hv hnn
+          have := List.filterMap_eq_nil_iff.mp hmust p hp
+          rw [hv] at this
+          cases v with
+          | pyNone => exact absurd rfl hnn
+          | unsized => simp [Val.makeIterableLen] at this
+          | atom _ => simp only [Val.makeIterableLen] at this ⊢; split at this <;> simp_all
+          | seq _ => simp only [Val.makeIterableLen] at this ⊢; split at this <;> simp_all
+          | dict _ _ => simp only [Val.makeIterableLen] at this ⊢; split at this <;> simp_all
+          | unindexable _ => simp only [Val.makeIterableLen] at this ⊢; split at this <;> simp_all
+        · intro p hp v hv hit
+          have := List.filterMap_eq_nil_iff.mp hcan p hp
+          rw [hv] at this
+          cases v with
+          | pyNone => simp [Val.isIterable] at hit
+          | atom _ => simp [Val.isIterable] at hit
+          | unsized => simp [Val.isIterable, Val.len?] at this
+          | seq _ => simp only [Val.isIterable, Val.len?, if_true] at this ⊢; split at this <;> simp_all
+          | dict _ _ => simp only [Val.isIterable, Val.len?, if_true] at this ⊢; split at this <;> simp_all
+          | unindexable _ => simp only [Val.isIterable, Val.len?, if_true] at this ⊢; split at this <;> simp_all
+
+/-! ### `map_neuronlist_df` -/
+
+theorem filterMap_id_map_some {α γ} (l : List α) (g : α → γ) : (l.map fun x => some (g x)).filterMap id = l.map g := by
+  induction l with
+  | nil => rfl
+  | cons x xs ih => simp [ih]
+
+theorem zip_map_self {α γ} (l : List α) (g : α → γ) : l.zip (l.map g) = l.map fun x => (x, g x) := by
+  induction l with
+  | nil => rfl
+  | cons x xs ih => simp [ih]
+
+/-- When no run fails every frame carries the id of its own neuron. -/
+theorem mapDfW_no_failure {ν γ} (g : ν → γ) (nl : List ν) (hne : nl ≠ []) (omitF : Bool) :
+    mapDfW (fun x => some (g x)) nl omitF = some (nl.map fun x => (x, g x)) := by
+  unfold mapDfW collect
+  have hall : (nl.map fun x => some (g x)).all Option.isSome = true := by
+    rw [List.all_eq_true]; intro y hy; rw [List.mem_map] at hy; obtain ⟨x, _, rfl⟩ := hy; rfl
+  have hemp : (nl.map g).isEmpty = false := by
+    cases nl with
+    | nil => exact absurd rfl hne
+    | cons x xs => rfl
+  cases omitF
+  · simp only [Bool.false_eq_true, if_false, hall, if_true, Option.bind_some]
+    rw [filterMap_id_map_some, hemp, zip_map_self]; rfl
+  · simp only [if_true, Option.bind_some]
+    rw [filterMap_id_map_some, hemp, zip_map_self]; rfl
+
 end Navis.Zip
